@@ -591,6 +591,9 @@ LEX_STMTS = [
     ("sig-star-annot-unpack", "def f0(*p0: *T0):\n    pass\n"),
     ("sig-star-annot-unpack-more", "def f0(p0, *p1: *tuple[int, ...], p2: int = 1, **p3: str) -> None:\n    pass\n"),
     ("sig-star-annot-plain", "def f0(*p0: T0, **p1: T1):\n    pass\n"),
+    ("fdebug-after-formfeed", "s0 = 'a\x0cb'\ny0 = f'{s0=}'\n"),
+    ("fdebug-after-linesep", "s0 = 'a\u2028b\x1cc\x85d'\ny0 = f'{s0 = }'\n"),
+    ("formfeed-between-statements", "s0 = 1\n\x0cy0 = f'{s0=:>3}'\n"),
     ("star-target", "a0, *b0 = s0\n*a1, b1 = s0\n[a2, *b2] = s0\n(a3, (b3, *c3)) = s0\n"),
     ("star-for", "for a0, *b0 in s0:\n    pass\nfor (a1, b1), c1 in s0: pass\n"),
     ("star-subscript", "a0[0], b0.at0, *c0[1:2] = s0\n"),
@@ -759,6 +762,45 @@ def arg_orderings(maxeach=2):
     return out
 
 
+def debug_field_forms():
+    """f-string replacement fields: expression x debug `=` x conversion x format spec (incl. empty
+    and nested specs, nested debug fields), as (id, expression text)."""
+    out = []
+    exprs = [("n", "v0"), ("e", "v0 + 1"), ("sp", " v0 ")]
+    eqs = [("", ""), ("eq", "="), ("eqsp", " = ")]
+    convs = [("", ""), ("r", "!r"), ("s", "!s"), ("a", "!a")]
+    specs = [("", ""), ("emp", ":"), ("w", ":>4"), ("f", ":.2f"), ("nest", ":{v1}"), ("nest2", ":{v1}.{v2}"), ("nestdbg", ":{v1=}"),
+             ("nestconv", ":{v1!r:>3}"), ("text", ":%Y-%m")]
+    for (ei, e), (qi, q), (ci, c), (si, sp) in itertools.product(exprs, eqs, convs, specs):
+        out.append((f"fdbg-{ei}-{qi or 'no'}-{ci or 'no'}-{si or 'no'}", "f'a{" + e + q + c + sp + "}b'"))
+    out.append(("fdbg-two", "f'{v0=}{v1=!s}{v2=:>3}'"))
+    out.append(("fdbg-triple", "f\'\'\'{v0=}\n{v1 = :>3}\'\'\'"))
+    out.append(("fdbg-concat", "'s' f'{v0=:.2f}' 't' f'{v1=}'"))
+    return out
+
+
+def subscript_forms():
+    """Subscripts with 1..3 index elements (name / slice / extended slice / starred / ellipsis), with and
+    without a trailing comma, as load / store / del / augmented-assignment targets and in annotations;
+    only those CPython accepts are kept.  Returns (id, module text)."""
+    elems = {"n": "i{k}", "s": "{k}:j{k}", "x": "::s{k}", "t": "*t{k}", "e": "...", "p": "(i{k}, j{k})"}
+    out = []
+    for n in (1, 2, 3):
+        for kinds in itertools.product(elems, repeat=n):
+            idx = ", ".join(elems[kd].format(k=k) for k, kd in enumerate(kinds))
+            for comma in ("", ","):
+                sub = f"a0[{idx}{comma}]"
+                forms = {"load": f"r0 = {sub}\n", "store": f"{sub} = r0\n", "del": f"del {sub}\n", "aug": f"{sub} += 1\n",
+                         "ann": f"r0: {sub} = 1\n", "sig": f"def f0(p0: {sub}) -> {sub}:\n    pass\n", "nested": f"r0 = a0[b0[{idx}{comma}]]\n"}
+                for fk, text in forms.items():
+                    try:
+                        ast.parse(text)
+                    except SyntaxError:
+                        continue
+                    out.append((f"sub-{''.join(kinds)}{'c' if comma else ''}-{fk}", text))
+    return out
+
+
 _KEYWORDS_CACHE = None
 
 
@@ -908,7 +950,7 @@ def all_cases(tier, seed):
             emb.append(("expr", pid, ast.unparse(b[0].value)))
     if tier == "quick":
         rnd.shuffle(emb)
-        emb = emb[: len(emb) // 8]
+        emb = emb[: len(emb) // 10]
         emb.sort()
     for e in emb:
         if e[0] == "beh":
@@ -935,6 +977,27 @@ def all_cases(tier, seed):
             add(f"ord-beh:call:{o}", "behavior", s_, p_, "order")
             s_, p_ = embed_expr(REQ_PREFIX, f"g0({args})", True)
             add(f"ord-reqP:call:{o}", "require", s_, p_, "order")
+
+    # ---- f-string debug fields x conversion x format spec; subscripts x elements x trailing comma x use
+    for k, (fid, e) in enumerate(debug_field_forms()):
+        t = "r0 = " + e + "\n"
+        add(f"fdbg:{fid}", "module", t, t, "fdbg")
+        if tier != "quick" or (k + seed) % 6 == 0:
+            s_, p_ = embed_behavior(t)
+            add(f"fdbg-beh:{fid}", "behavior", s_, p_, "fdbg")
+            if "\n" not in e:
+                s_, p_ = embed_expr(SPEC_PREFIX, e, True)
+                add(f"fdbg-specP:{fid}", "specifier", s_, p_, "fdbg")
+    subs = subscript_forms()
+    stats["subscript_forms"] = len(subs)
+    for k, (sid, t) in enumerate(subs):
+        nel = len(sid.split("-")[1].rstrip("c"))
+        if tier == "quick" and ((nel == 3 and (k + seed) % 8) or (nel == 2 and (k + seed) % 2)):
+            continue  # quick: an eighth of the three-element forms, half of the two-element ones
+        add(f"sub:{sid}", "module", t, t, "subscript")
+        if tier != "quick" or (k + seed) % 8 == 0:
+            s_, p_ = embed_behavior(t)
+            add(f"sub-beh:{sid}", "behavior", s_, p_, "subscript")
 
     # ---- lexical catalogue and rewrite triggers: every context
     for group, stmts, exprs in (("lex", LEX_STMTS, LEX_EXPRS), ("trig", TRIGGER_STMTS, TRIGGER_EXPRS)):
